@@ -136,6 +136,19 @@ def wire_shape(shape, names):
     }
 
 
+def many_optima_shapes():
+    """models with several hundred mutually incomparable optima (10 equally good candidates, exactly 5 to choose: 252
+    assignments; aldy's major model for five copies of one configuration has this shape): the enumeration must report every one"""
+    out = []
+    for limit in (None, 300):
+        n = 10
+        out.append({"raw_bins": [f"b{i}" for i in range(n)], "rows": [{"terms": [], "target": Fraction(0), "weight": Fraction(1), "bound": None}],
+                    "cons": [{"terms": [(1, v) for v in range(n)], "sense": "le", "rhs": Fraction(5)},
+                             {"terms": [(1, v) for v in range(n)], "sense": "ge", "rhs": Fraction(5)}],
+                    "prods": [], "lin": [], "gap": Fraction(0), "limit": limit, "ints": []})
+    return out
+
+
 def run_real(shape):
     """returns dict(names, snapshot, trace, helpers, capped)"""
     m, names, E = build_real(shape)
@@ -330,6 +343,7 @@ def tie(ctx):
         shapes.append(shape_from_json(ctx["replay"]["violation"]["input"]["shape"]))
     n_corpus = len(shapes)
     shapes += exhaustive_gadgets()
+    shapes += many_optima_shapes()
     n_gadget = len(shapes) - n_corpus
     shapes += [gen_shape(r, small=(i % 3 == 0)) for i in range(n)]
     reqs, data = run_cases(shapes, eps)
